@@ -135,6 +135,32 @@ def signal_blocks(fn, matched_locals=()):
     rl = ret_locals(fn)
     prov = None
     sig = {}
+    # the error payload of the matched Result(s), followed through conversions: handing it back inside a value
+    # of the function's own result type (`RangeCopy::Failed(e.into())`) is handing the failure to the caller
+    du = defuse(fn)
+    etaint = set()
+    work = []
+    for m_ in matched_locals:
+        for site, how in du.uses.get(m_, []):
+            if not site.is_term and how == "rv" and site.node["rv"]["k"] == "use":
+                pl_ = op_place(site.node["rv"]["op"])
+                pr_ = pl_.get("p") or []
+                if len(pr_) == 2 and isinstance(pr_[0], dict) and pr_[0].get("dc") == "Err" and not site.node["lhs"].get("p"):
+                    work.append(site.node["lhs"]["l"])
+    while work:
+        x = work.pop()
+        if x in etaint:
+            continue
+        etaint.add(x)
+        for site, how in du.uses.get(x, []):
+            n_ = site.node
+            if site.is_term:
+                if n_["k"] == "call" and callee_orig(n_) in ("core::convert::Into::into", "core::convert::From::from") \
+                        and not n_["dest"].get("p"):
+                    work.append(n_["dest"]["l"])
+            elif how == "rv" and n_["rv"]["k"] in ("use", "cast") and not n_["lhs"].get("p") and \
+                    not (op_place(n_["rv"]["op"]) or {}).get("p"):
+                work.append(n_["lhs"]["l"])
     for bi, b in enumerate(fn.blocks):
         if cfg.cleanup[bi]:
             continue
@@ -144,6 +170,10 @@ def signal_blocks(fn, matched_locals=()):
             if lhs["l"] in rl and not lhs.get("p"):
                 if rv["k"] == "agg" and rv.get("adt") == "core::result::Result" and rv.get("variant") == "Err":
                     sig[bi] = "return Err(..)"
+                elif rv["k"] == "agg" and rv.get("ak") == "adt" and etaint and \
+                        rv.get("adt") not in ("core::result::Result", "core::option::Option") and \
+                        any(op_local(o_) in etaint for o_ in rv["fields"]):
+                    sig[bi] = "returns the error inside %s::%s" % (rv["adt"].split("::")[-1], rv.get("variant"))
                 elif rv["k"] == "use" and op_local(rv["op"]) in matched_locals:
                     sig[bi] = "returns the failed Result itself"
         t = b["term"]
